@@ -111,6 +111,7 @@ func (w *World) verifyFunc(fc *FuncContract, props []string) (res *UnitResult) {
 	for _, r := range rets {
 		x.curBlock = r.blk
 		envR := x.envFor(fn, r.st, x.entry, r.results)
+		envR.pos = r.pos
 		for _, cl := range fc.Ensures {
 			if cl.Def {
 				x.ledger["definitional postcondition of "+fc.Name+" (names its result by spec functions; not proved): "+cl.Text] = true
